@@ -322,6 +322,16 @@ def subdivision(tier, seed):
                         a = trimesh.triangles.area(v[f]).sum()
                         if abs(a - ms.area) > 1e-9 * max(ms.area, 1e-30):
                             fail("subdivide_to_size:area-changed", mname)
+                        # return_index: same faces, and every new face lies inside the original face it names
+                        v2, f2, idx = trimesh.remesh.subdivide_to_size(ms.vertices, ms.faces, max_edge=bound, max_iter=12, return_index=True)
+                        if len(idx) != len(f2) or not rnp.array_equal(f2, f) or not rnp.allclose(v2, v):
+                            fail("subdivide_to_size:return_index-changes-the-result-or-has-the-wrong-length", mname)
+                        else:
+                            cen = v2[f2].mean(axis=1)
+                            bary = trimesh.triangles.points_to_barycentric(ms.triangles[idx], cen)
+                            off = rnp.abs(rnp.einsum("ij,ij->i", cen - ms.triangles[idx][:, 0], ms.face_normals[idx]))
+                            if bary.min() < -1e-6 or float(off.max()) > 1e-9 * max(float(ms.scale), 1e-30) * 1e3:
+                                fail("subdivide_to_size:return_index-names-the-wrong-original-face", mname, "scale %g" % sc)
                     except Exception as ex:  # noqa: BLE001
                         fail("subdivide_to_size:raised %s" % type(ex).__name__, mname, ex)
     fails = sorted(cells.values(), key=lambda c: c["cell"])
